@@ -108,7 +108,7 @@ def directory_case(draw):
             "dup_of": draw(st.integers(0, nsp - 1)), "missing_of": draw(st.integers(0, nsp - 1)),
             "known": draw(st.lists(st.integers(0, nsp - 1), max_size=nsp - 1, unique=True)),
             "exclude": draw(st.lists(st.integers(0, nsp - 1), max_size=1, unique=True)),
-            "scale": draw(st.sampled_from([0.5, 0.5, 1.0, 0.3, 0.77])),
+            "scale": draw(st.sampled_from([0.5, 0.5, 1.0, 0.3, 0.77, 0.0, 1e-3, 2.0])),
             "outmode": draw(st.sampled_from(["default", "absolute", "relative", "relative-subdir"])),
             "mode": draw(st.sampled_from(["mol", "auto", "mixed"])),
             "seed": draw(gen.SEEDS), "orders": draw(st.integers(4, 6)),
